@@ -3,7 +3,7 @@ C19 helper lemmas (marker simplifier, second part): the LEAF INVARIANT and its p
 mutual block of `Model/MarkerAlg.lean`, together with the error classification on invariant operands — one
 induction on the fuel, in the style of a Hoare logic over `PyM` (`Res`).  Parametric in the leaf predicate `G`,
 the error class `E` of the leaf merge and, for the concrete invariant `LeafOK P`, in a predicate `P` on
-version constraints closed under the operations the merge uses (`VCOpsTotal P`).
+version constraints closed under the operations the merge uses (`VCOpsMin P`).
 -/
 import PoetryVerif.Proofs.ParserTotalSimp
 import PoetryVerif.Proofs.ParserTotalVC4
@@ -13,6 +13,19 @@ set_option linter.unusedVariables false
 
 namespace Poetry.ParserTotal
 open Poetry Marker
+
+/-- the part of the version-constraint package the leaf merge uses (both `VCOpsTotal` and the text-clean
+`VCOpsTotalT` provide it) -/
+structure VCOpsMin (P : VC → Prop) : Prop where
+  any : P VC.any
+  parsed : ∀ s m c, VParser.parseConstraintAux s m = .ok c → P c
+  inter : ∀ a b, P a → P b → ∃ c, VC.intersect a b = .ok c ∧ P c
+  unionWith : ∀ a b, P a → P b → ∃ c, VC.unionWith a b = .ok c ∧ P c
+  isSimple : ∀ c, P c → ∃ b, VC.isSimple c = .ok b
+  toStr : ∀ c, P c → ∃ t, VC.toStr c = .ok t
+
+theorem VCOpsTotal.toMin {P : VC → Prop} (h : VCOpsTotal P) : VCOpsMin P :=
+  ⟨h.any, h.parsed, h.inter, h.unionWith, h.isSimple, h.toStr⟩
 
 variable {G : Leaf → Prop} {E : PyErr → Prop}
 
@@ -713,7 +726,7 @@ def LeafOK (P : VC → Prop) (l : Leaf) : Prop :=
   (isPyName l.name = true → ∃ s c, l = .single s ∧ s.c = .ver c) ∧ (∀ c, l.c = .ver c → P c)
 
 /-- the version constraint inside a leaf constraint lies in `P` -/
-def LCOK (P : VC → Prop) (c : LeafC) : Prop := ∀ vc, c = .ver vc → P vc
+@[reducible] def LCOK (P : VC → Prop) (c : LeafC) : Prop := ∀ vc, c = .ver vc → P vc
 
 /-- error classes of leaf construction and re-parsing -/
 def MErr (e : PyErr) : Prop := e = .syntax ∨ e = .value ∨ e = .unmodelled
@@ -776,14 +789,14 @@ theorem leafPrepare_py (name cstr : String) (sw : Bool) (p : LeafPrep)
     | (cases h; done)
     | (cases h; exact ⟨_, rfl⟩)
 
-theorem parseVersionKind_ok (hP : VCOpsTotal P) (b : Bool) (s : String) (vc : VC)
+theorem parseVersionKind_ok (hP : VCOpsMin P) (b : Bool) (s : String) (vc : VC)
     (h : parseVersionKind b s = .ok vc) : P vc := by
   unfold parseVersionKind at h
   split at h
   · split at h <;> cases h
   · exact hP.parsed s true vc h
 
-theorem parseByKind_ok (hP : VCOpsTotal P) (k : LeafKind) (s : String) (c : LeafC)
+theorem parseByKind_ok (hP : VCOpsMin P) (k : LeafKind) (s : String) (c : LeafC)
     (h : parseByKind k s = .ok c) : LCOK P c ∧ ((∃ b, k = .version b) → ∃ vc, c = .ver vc) := by
   unfold parseByKind at h
   cases k with
@@ -819,7 +832,7 @@ theorem MErr.ofLeaf {sb : Bool} {e : PyErr} (h : LeafErr e) : BlockErr (MErrS sb
 
 /-- `SingleMarker(name, constraint_string)`: fails with `ValueError`/`.unmodelled`, or returns a leaf
 satisfying the invariant -/
-theorem mkSingle_res (hvc : VCErrDocumented) (hP : VCOpsTotal P) (name cstr : String) (sw : Bool) :
+theorem mkSingle_res (hvc : VCErrDocumented) (hP : VCOpsMin P) (name cstr : String) (sw : Bool) :
     Res (MErrS sb) (fun s => M.Good (LeafOK P) (.leaf (.single s))) (mkSingle name cstr sw) := by
   cases h : mkSingle name cstr sw with
   | error e => exact MErr.ofLeaf (mkSingle_leafErr hvc _ _ _ _ h)
@@ -839,7 +852,7 @@ theorem mkSingle_res (hvc : VCErrDocumented) (hP : VCOpsTotal P) (name cstr : St
     · intro vc hvc'
       exact h1 vc hvc'
 
-theorem mkSingleOfC_res (hvc : VCErrDocumented) (hP : VCOpsTotal P) (name : String) (c : LeafC)
+theorem mkSingleOfC_res (hvc : VCErrDocumented) (hP : VCOpsMin P) (name : String) (c : LeafC)
     (hc : LCOK P c) : Res (MErrS sb) (fun s => M.Good (LeafOK P) (.leaf (.single s))) (mkSingleOfC name c) := by
   unfold mkSingleOfC
   refine Res.bind (Q := fun _ => True) ?_ (fun t _ => mkSingle_res hvc hP _ _ _)
@@ -850,7 +863,7 @@ theorem mkSingleOfC_res (hvc : VCErrDocumented) (hP : VCOpsTotal P) (name : Stri
     exact Res.ok trivial
   | gen g => exact Res.ok trivial
 
-theorem parseItemMarker_res (hvc : VCErrDocumented) (hP : VCOpsTotal P) (text : String) :
+theorem parseItemMarker_res (hvc : VCErrDocumented) (hP : VCOpsMin P) (text : String) :
     Res (MErrS true) (M.Good (LeafOK P)) (parseItemMarker text) := by
   unfold parseItemMarker
   split
@@ -860,7 +873,7 @@ theorem parseItemMarker_res (hvc : VCErrDocumented) (hP : VCOpsTotal P) (text : 
   · exact Res.bind (mkSingle_res hvc hP _ _ _) (fun s hs => Res.pure hs)
   · exact .inr (.inr (.inr (.inr rfl)))
 
-theorem gpcLeaf_res (hvc : VCErrDocumented) (hP : VCOpsTotal P) (l : Leaf) : Res (MErrS sb) P (gpcLeaf l) := by
+theorem gpcLeaf_res (hvc : VCErrDocumented) (hP : VCOpsMin P) (l : Leaf) : Res (MErrS sb) P (gpcLeaf l) := by
   have key : ∀ (disj : List (List (String × String))),
       Res (MErrS sb) P (normalizePyMarkers disj >>= fun txt => VParser.parseMarkerVersionConstraint txt) := by
     intro disj
@@ -876,22 +889,22 @@ theorem gpcLeaf_res (hvc : VCErrDocumented) (hP : VCOpsTotal P) (l : Leaf) : Res
   · exact Res.ok hP.any
   · split <;> exact key _
 
-theorem vc_intersect_res (hP : VCOpsTotal P) {a b : VC} (ha : P a) (hb : P b) :
+theorem vc_intersect_res (hP : VCOpsMin P) {a b : VC} (ha : P a) (hb : P b) :
     Res (MErrS sb) P (a.intersect b) := by
   obtain ⟨r, hr, hpr⟩ := hP.inter a b ha hb
   rw [hr]; exact Res.ok hpr
 
-theorem vc_union_res (hP : VCOpsTotal P) {a b : VC} (ha : P a) (hb : P b) :
+theorem vc_union_res (hP : VCOpsMin P) {a b : VC} (ha : P a) (hb : P b) :
     Res (MErrS sb) P (a.unionWith b) := by
   obtain ⟨r, hr, hpr⟩ := hP.unionWith a b ha hb
   rw [hr]; exact Res.ok hpr
 
-theorem vc_isSimple_res (hP : VCOpsTotal P) {c : VC} (hc : P c) :
+theorem vc_isSimple_res (hP : VCOpsMin P) {c : VC} (hc : P c) :
     Res (MErrS sb) (fun _ => True) c.isSimple := by
   obtain ⟨b, hb⟩ := hP.isSimple c hc
   rw [hb]; exact Res.ok trivial
 
-theorem leafC_intersect_res (hP : VCOpsTotal P) {c1 c2 : LeafC} (hk : SameKind c1 c2)
+theorem leafC_intersect_res (hP : VCOpsMin P) {c1 c2 : LeafC} (hk : SameKind c1 c2)
     (h1 : LCOK P c1) (h2 : LCOK P c2) : Res (MErrS sb) (LCOK P) (c1.intersect c2) := by
   rcases hk with ⟨a, b, rfl, rfl⟩ | ⟨a, b, rfl, rfl⟩
   · obtain ⟨r, hr, hpr⟩ := hP.inter a b (h1 a rfl) (h2 b rfl)
@@ -902,7 +915,7 @@ theorem leafC_intersect_res (hP : VCOpsTotal P) {c1 c2 : LeafC} (hk : SameKind c
     | error e => rw [gc_intersect_err _ _ _ h]; exact .inr (.inr (.inr (.inl rfl)))
     | ok r => exact Res.ok (lcok_gen r)
 
-theorem leafC_union_res (hP : VCOpsTotal P) {c1 c2 : LeafC} (hk : SameKind c1 c2)
+theorem leafC_union_res (hP : VCOpsMin P) {c1 c2 : LeafC} (hk : SameKind c1 c2)
     (h1 : LCOK P c1) (h2 : LCOK P c2) : Res (MErrS sb) (LCOK P) (c1.union c2) := by
   rcases hk with ⟨a, b, rfl, rfl⟩ | ⟨a, b, rfl, rfl⟩
   · obtain ⟨r, hr, hpr⟩ := hP.unionWith a b (h1 a rfl) (h2 b rfl)
@@ -914,6 +927,26 @@ theorem leafC_union_res (hP : VCOpsTotal P) {c1 c2 : LeafC} (hk : SameKind c1 c2
     | ok r => exact Res.ok (lcok_gen r)
 
 /-! ## `_merge_single_markers` on invariant leaves -/
+
+/-- the text `python_version == "<min.text>"` that the merge builds from the lower bound of a range in `P` is read
+back by the grammar as that item (follows from "the texts of the bounds are clean", Proofs/ParserTotalLex.lean) -/
+def SiteAOk (P : VC → Prop) : Prop :=
+  ∀ (r : VRange) (mn : Version), P (.single (.rng r)) → r.min = some mn →
+    parseText ("python_version == \"" ++ mn.text ++ "\"") = .ok (.one (.item "python_version" "==" mn.text false))
+
+/-- when the merge of `m1`, `m2` cannot raise lark's error: the switch is on (`sb = true`: the error is admitted
+in the class), or neither leaf is named `python_version` (no re-parsing step is reached), or neither is named
+`python_full_version` and the candidate text is readable (only the first re-parsing step is reached) -/
+def NoSyn (P : VC → Prop) (sb : Bool) (m1 m2 : Leaf) : Prop :=
+  sb = true ∨ (m1.name ≠ "python_version" ∧ m2.name ≠ "python_version") ∨
+    (SiteAOk P ∧ m1.name ≠ "python_full_version" ∧ m2.name ≠ "python_full_version")
+
+theorem parseItem_clean (hvc : VCErrDocumented) (hP : VCOpsMin P) (hA : SiteAOk P) {r : VRange} {mn : Version}
+    (hr : P (.single (.rng r))) (hmn : r.min = some mn) :
+    Res (MErrS sb) (M.Good (LeafOK P)) (parseItemMarker ("python_version == \"" ++ mn.text ++ "\"")) := by
+  unfold parseItemMarker
+  rw [hA r mn hr hmn]
+  exact Res.bind (mkSingle_res hvc hP _ _ _) (fun s hs => Res.pure hs)
 
 theorem atomic_leafOK {l : Leaf} {a : Generic.GC} (hl : LeafOK P l) (hc : l.c = .gen a) :
     (∀ g, LeafOK P (.aunion l.name g)) ∧ (∀ g, LeafOK P (.amulti l.name g)) := by
@@ -951,6 +984,9 @@ local macro "og" : tactic => `(tactic| (
         | (cases hr; done)
         | (cases hr; first | exact good_empty' | exact good_any' | assumption))))
 
+set_option hygiene false in
+local macro "pra" : tactic => `(tactic| first | assumption | exact (‹LCOK P (LeafC.ver _)›) _ rfl)
+
 local macro "lcp" : tactic => `(tactic| first | assumption | exact lcok_ver (by assumption))
 
 set_option hygiene false in
@@ -958,11 +994,12 @@ local macro "hstep" : tactic => `(tactic| first
   | ((with_reducible refine Res.pure ?_); og)
   | with_reducible refine Res.pure_bind_opt (G := LeafOK P) (by og) (fun _ _ => ?_)
   | with_reducible refine Res.pure_bind ?_
-  | (rcases hsb with hsb | hsb <;> first
+  | (rcases hsb with hsb | hsb | hsb <;> first
       | (subst hsb; with_reducible refine Res.bind (parseItemMarker_res hvc hP _) (fun _ _ => ?_))
       | (exfalso
          have hpv : m1.name = "python_version" := by simpa using ‹¬(m1.name != "python_version") = true›
-         rw [hpv] at hsb; exact absurd hsb (by decide)))
+         exact hsb.1 hpv)
+      | (with_reducible refine Res.bind (parseItem_clean hvc hP hsb.1 (by pra) (by assumption)) (fun _ _ => ?_)))
   | with_reducible refine Res.bind (gpcLeaf_res hvc hP _) (fun _ _ => ?_)
   | with_reducible refine Res.bind (mkSingleOfC_res hvc hP _ _ (by lcp)) (fun _ _ => ?_)
   | with_reducible refine Res.bind (vc_intersect_res hP (by assumption) (by assumption)) (fun _ _ => ?_)
@@ -975,11 +1012,11 @@ local macro "hstep" : tactic => `(tactic| first
   | with_reducible refine Res.bind (Q := fun _ => True) ?_ (fun _ _ => ?_)
   | split)
 
-theorem mergeSingle_rest_vv (hvc : VCErrDocumented) (hP : VCOpsTotal P) (m1 m2 : Leaf) (isMulti : Bool)
+theorem mergeSingle_rest_vv (hvc : VCErrDocumented) (hP : VCOpsMin P) (m1 m2 : Leaf) (isMulti : Bool)
     (h1 : LeafOK P m1) (h2 : LeafOK P m2) (depth : Nat)
     (hp : ¬ ((m1.name == "python_version" && m2.name == "python_full_version") ||
       (m1.name == "python_full_version" && m2.name == "python_version")) = true)
-    (hsb : sb = true ∨ isPyName m1.name = false)
+    (hsb : NoSyn P sb m1 m2)
     (a b : VC) (hc1 : m1.c = .ver a) (hc2 : m2.c = .ver b) :
     Res (MErrS sb) (OptGood (LeafOK P)) (mergeSingle depth m1 m2 isMulti) := by
   have hg1 : M.Good (LeafOK P) (.leaf m1) := by simpa using h1
@@ -1008,11 +1045,11 @@ theorem mergeSingle_rest_vv (hvc : VCErrDocumented) (hP : VCOpsTotal P) (m1 m2 :
     dsimp only
     repeat' hstep
 
-theorem mergeSingle_rest_gg (hvc : VCErrDocumented) (hP : VCOpsTotal P) (m1 m2 : Leaf) (isMulti : Bool)
+theorem mergeSingle_rest_gg (hvc : VCErrDocumented) (hP : VCOpsMin P) (m1 m2 : Leaf) (isMulti : Bool)
     (h1 : LeafOK P m1) (h2 : LeafOK P m2) (depth : Nat)
     (hp : ¬ ((m1.name == "python_version" && m2.name == "python_full_version") ||
       (m1.name == "python_full_version" && m2.name == "python_version")) = true)
-    (hsb : sb = true ∨ isPyName m1.name = false)
+    (hsb : NoSyn P sb m1 m2)
     (a b : Generic.GC) (hc1 : m1.c = .gen a) (hc2 : m2.c = .gen b) :
     Res (MErrS sb) (OptGood (LeafOK P)) (mergeSingle depth m1 m2 isMulti) := by
   have hg1 : M.Good (LeafOK P) (.leaf m1) := by simpa using h1
@@ -1030,11 +1067,11 @@ theorem mergeSingle_rest_gg (hvc : VCErrDocumented) (hP : VCOpsTotal P) (m1 m2 :
   · repeat' hstep
   · repeat' hstep
 
-theorem mergeSingle_rest_res (hvc : VCErrDocumented) (hP : VCOpsTotal P) (m1 m2 : Leaf) (isMulti : Bool)
+theorem mergeSingle_rest_res (hvc : VCErrDocumented) (hP : VCOpsMin P) (m1 m2 : Leaf) (isMulti : Bool)
     (h1 : LeafOK P m1) (h2 : LeafOK P m2) (depth : Nat)
     (hp : ¬ ((m1.name == "python_version" && m2.name == "python_full_version") ||
       (m1.name == "python_full_version" && m2.name == "python_version")) = true)
-    (hsb : sb = true ∨ isPyName m1.name = false) :
+    (hsb : NoSyn P sb m1 m2) :
     Res (MErrS sb) (OptGood (LeafOK P)) (mergeSingle depth m1 m2 isMulti) := by
   cases hc1 : m1.c with
   | ver a =>
@@ -1058,7 +1095,7 @@ theorem mergeSingle_rest_res (hvc : VCErrDocumented) (hP : VCOpsTotal P) (m1 m2 
       rw [hc1, hc2]
       exact Res.ok (by intro r hr; cases hr)
 
-theorem mergePythonVersion_res (hvc : VCErrDocumented) (hP : VCOpsTotal P) {d : Nat}
+theorem mergePythonVersion_res (hvc : VCErrDocumented) (hP : VCOpsMin P) {d : Nat}
     (ihd : ∀ l1 l2 b, LeafOK P l1 → LeafOK P l2 → Res (MErrS true) (OptGood (LeafOK P)) (mergeSingle d l1 l2 b)) :
     ∀ s1 s2 b, LeafOK P (.single s1) → LeafOK P (.single s2) →
       Res (MErrS true) (OptGood (LeafOK P)) (mergePythonVersion d s1 s2 b) := by
@@ -1113,10 +1150,10 @@ theorem mergePythonVersion_res (hvc : VCErrDocumented) (hP : VCOpsTotal P) {d : 
     refine Res.bind (ihd _ _ _ (by simpa using hnm) h1) (fun merged hmerged => ?_)
     exact tail s2 s1 h2 h1 nm hnm merged hmerged
 
-theorem mergeSingle_res (hvc : VCErrDocumented) (hP : VCOpsTotal P) {depth : Nat}
+theorem mergeSingle_res (hvc : VCErrDocumented) (hP : VCOpsMin P) {depth : Nat}
     (hPV : ∀ d, depth = d + 1 → ∀ s1 s2 b, LeafOK P (.single s1) → LeafOK P (.single s2) →
       Res (MErrS true) (OptGood (LeafOK P)) (mergePythonVersion d s1 s2 b)) :
-    ∀ m1 m2 b, LeafOK P m1 → LeafOK P m2 → (sb = true ∨ isPyName m1.name = false) →
+    ∀ m1 m2 b, LeafOK P m1 → LeafOK P m2 → NoSyn P sb m1 m2 →
       Res (MErrS sb) (OptGood (LeafOK P)) (mergeSingle depth m1 m2 b) := by
   intro m1 m2 isMulti h1 h2 hsb
   by_cases hp : ((m1.name == "python_version" && m2.name == "python_full_version") ||
@@ -1127,7 +1164,7 @@ theorem mergeSingle_res (hvc : VCErrDocumented) (hP : VCOpsTotal P) {depth : Nat
     have hn2 : isPyName m2.name = true := by
       simp only [Bool.or_eq_true, Bool.and_eq_true, beq_iff_eq] at hp
       rcases hp with ⟨_, h⟩ | ⟨_, h⟩ <;> rw [h] <;> decide
-    rcases hsb with hsb | hsb
+    rcases hsb with hsb | hsb | hsb
     · subst hsb
       obtain ⟨s1, _, rfl, _⟩ := h1.1 hn1
       obtain ⟨s2, _, rfl, _⟩ := h2.1 hn2
@@ -1137,13 +1174,22 @@ theorem mergeSingle_res (hvc : VCErrDocumented) (hP : VCOpsTotal P) {depth : Nat
       cases depth with
       | zero => exact Res.fuel
       | succ d => exact hPV d rfl s1 s2 isMulti h1 h2
-    · rw [hn1] at hsb; cases hsb
+    · exfalso
+      simp only [Bool.or_eq_true, Bool.and_eq_true, beq_iff_eq] at hp
+      rcases hp with ⟨h, _⟩ | ⟨_, h⟩
+      · exact hsb.1 h
+      · exact hsb.2 h
+    · exfalso
+      simp only [Bool.or_eq_true, Bool.and_eq_true, beq_iff_eq] at hp
+      rcases hp with ⟨_, h⟩ | ⟨h, _⟩
+      · exact hsb.2.2 h
+      · exact hsb.2.1 h
   · exact mergeSingle_rest_res hvc hP m1 m2 isMulti h1 h2 depth hp hsb
 
 /-- the merge with lark's error switched on (`sb = true`: all leaves) or off (`sb = false`: the first leaf is
 not named `python_version` / `python_full_version`, so neither re-parsing step is reached) -/
-theorem mergeLeaves_resS (hvc : VCErrDocumented) (hP : VCOpsTotal P) (l1 l2 : Leaf) (b : Bool)
-    (h1 : LeafOK P l1) (h2 : LeafOK P l2) (hsb : sb = true ∨ isPyName l1.name = false) :
+theorem mergeLeaves_resS (hvc : VCErrDocumented) (hP : VCOpsMin P) (l1 l2 : Leaf) (b : Bool)
+    (h1 : LeafOK P l1) (h2 : LeafOK P l2) (hsb : NoSyn P sb l1 l2) :
     Res (MErrS sb) (OptGood (LeafOK P)) (mergeLeaves l1 l2 b) := by
   unfold mergeLeaves
   have r0 : ∀ m1 m2 b, LeafOK P m1 → LeafOK P m2 →
@@ -1158,7 +1204,7 @@ theorem mergeLeaves_resS (hvc : VCErrDocumented) (hP : VCOpsTotal P) (l1 l2 : Le
 /-- **`_merge_single_markers` on leaves satisfying the invariant**: the result satisfies it again; an error is
 fuel (model), lark's error on a re-parsed text, `ValueError` or `.unmodelled` — no `AssertionError`, and no
 error of the version-constraint algebra. -/
-theorem mergeLeaves_res (hvc : VCErrDocumented) (hP : VCOpsTotal P) : MergeRes (LeafOK P) MErr :=
+theorem mergeLeaves_res (hvc : VCErrDocumented) (hP : VCOpsMin P) : MergeRes (LeafOK P) MErr :=
   fun l1 l2 b h1 h2 => Res.weaken (fun _ h => MErrS.toMErr h)
     (mergeLeaves_resS (sb := true) hvc hP l1 l2 b h1 h2 (.inl rfl))
 
@@ -1171,7 +1217,7 @@ theorem groupMarker_good {ms : List M} (h : GL G ms) : M.Good G (groupMarker ms)
   · exact mkMulti_good h
 
 mutual
-theorem compactAtom_good (hvc : VCErrDocumented) (hP : VCOpsTotal P) : ∀ (a : Marker.Atom) (m : M),
+theorem compactAtom_good (hvc : VCErrDocumented) (hP : VCOpsMin P) : ∀ (a : Marker.Atom) (m : M),
     compactAtom a = .ok m → M.Good (LeafOK P) m
   | .item n op v sw, m, h => by
     unfold compactAtom at h
@@ -1189,7 +1235,7 @@ theorem compactAtom_good (hvc : VCErrDocumented) (hP : VCOpsTotal P) : ∀ (a : 
     simp only [List.mem_map] at hx
     obtain ⟨g, hg', rfl⟩ := hx
     exact groupMarker_good (compactGroups_good hvc hP syn gs hg g hg')
-theorem compactGroups_good (hvc : VCErrDocumented) (hP : VCOpsTotal P) : ∀ (s : Syn) (gs : List (List M)),
+theorem compactGroups_good (hvc : VCErrDocumented) (hP : VCOpsMin P) : ∀ (s : Syn) (gs : List (List M)),
     compactGroups s = .ok gs → ∀ g ∈ gs, GL (LeafOK P) g
   | .one a, gs, h => by
     unfold compactGroups at h
@@ -1233,7 +1279,7 @@ theorem compactGroups_good (hvc : VCErrDocumented) (hP : VCOpsTotal P) : ∀ (s 
         exact single_good gx
 end
 
-theorem compactSubMarkers_good (hvc : VCErrDocumented) (hP : VCOpsTotal P) (syn : Syn) (subs : List M)
+theorem compactSubMarkers_good (hvc : VCErrDocumented) (hP : VCOpsMin P) (syn : Syn) (subs : List M)
     (h : compactSubMarkers syn = .ok subs) : GL (LeafOK P) subs := by
   unfold compactSubMarkers at h
   obtain ⟨gs, hg, h⟩ := bind_ok _ _ _ h
@@ -1245,7 +1291,7 @@ theorem compactSubMarkers_good (hvc : VCErrDocumented) (hP : VCOpsTotal P) (syn 
   exact groupMarker_good (compactGroups_good hvc hP syn gs hg g hg')
 
 /-- the whole block on the concrete invariant -/
-theorem simplifier_invAt (hvc : VCErrDocumented) (hP : VCOpsTotal P) (n : Nat) : InvAt (LeafOK P) MErr n :=
+theorem simplifier_invAt (hvc : VCErrDocumented) (hP : VCOpsMin P) (n : Nat) : InvAt (LeafOK P) MErr n :=
   invAt (mergeLeaves_res hvc hP) n
 
 /-! ## the entry points -/
@@ -1263,13 +1309,13 @@ theorem FinalErr.ofBlock {e : PyErr} (h : BlockErr MErr e) : FinalErr e := by
   · exact .inr (.inr (.inr (.inl h)))
   · exact .inr (.inr (.inr (.inr h)))
 
-theorem unionF_final (hvc : VCErrDocumented) (hP : VCOpsTotal P) (n : Nat) (stk : Stack) (ms : List M)
+theorem unionF_final (hvc : VCErrDocumented) (hP : VCOpsMin P) (n : Nat) (stk : Stack) (ms : List M)
     (hg : GL (LeafOK P) ms) :
     (∀ e, unionF n stk ms = .error e → FinalErr e) ∧ (∀ r, unionF n stk ms = .ok r → M.Good (LeafOK P) r) :=
   ⟨fun e h => .ofBlock (((simplifier_invAt hvc hP n).uniF stk ms hg).of_err h),
    fun r h => ((simplifier_invAt hvc hP n).uniF stk ms hg).of_ok h⟩
 
-theorem compactTop_final (hvc : VCErrDocumented) (hP : VCOpsTotal P) (syn : Syn) :
+theorem compactTop_final (hvc : VCErrDocumented) (hP : VCOpsMin P) (syn : Syn) :
     (∀ e, Req.compactTop syn = .error e → FinalErr e) ∧
     (∀ r, Req.compactTop syn = .ok r → M.Good (LeafOK P) r) := by
   unfold Req.compactTop
@@ -1285,7 +1331,7 @@ theorem compactTop_final (hvc : VCErrDocumented) (hP : VCOpsTotal P) (syn : Syn)
     have hg := compactSubMarkers_good hvc hP syn subs hc
     simpa [bind, Except.bind] using unionF_final hvc hP defaultFuel [] subs hg
 
-theorem parseMarker_final (hvc : VCErrDocumented) (hP : VCOpsTotal P) (s : String) :
+theorem parseMarker_final (hvc : VCErrDocumented) (hP : VCOpsMin P) (s : String) :
     (∀ e, parseMarker s = .error e → FinalErr e) ∧ (∀ r, parseMarker s = .ok r → M.Good (LeafOK P) r) := by
   refine ⟨fun e h => ?_, fun r h => ?_⟩
   · rcases parseMarker_cases s _ h with ⟨_, h⟩ | ⟨_, _, h⟩ | ⟨_, _, _, h⟩
